@@ -62,6 +62,42 @@ def gen_pool():
     return vlib.write_if_changed(os.path.join(GEN, "Pool.lean"), out)
 
 
+def gen_replybounds():
+    """behaviour probe of add_user_headers(): an application-set `Connection:` header into which MHD merges its token —
+    for every buffer size in which the plain line fits but the line with the token does not, the call must refuse
+    and must not have stored a byte at an index >= buf_size (canary behind the buffer)"""
+    from extract import c_eval, HEADER, GEN
+    probe = r"""
+static int probe_merge (int keep_alive)
+{
+  static char name[] = "Connection", val[] = "xxxxxxxx";
+  size_t plain = 10 + 2 + 8 + 2, tok = keep_alive ? 12 : 7, bs;
+  for (bs = plain; bs < plain + tok; bs++)
+  {
+    struct MHD_Response r; struct MHD_HTTP_Res_Header h; char buf[96]; size_t pos = 0, i; bool ok;
+    memset (&r, 0, sizeof(r)); memset (&h, 0, sizeof(h)); memset (buf, 0x5a, sizeof(buf));
+    h.header = name; h.header_size = 10; h.value = val; h.value_size = 8; h.kind = MHD_HEADER_KIND;
+    r.first_header = &h; r.last_header = &h; r.flags_auto = MHD_RAF_HAS_CONNECTION_HDR;
+    ok = add_user_headers (buf, &pos, bs, &r, false, false, ! keep_alive, 0 != keep_alive);
+    if (ok) return 0;
+    for (i = bs; i < sizeof(buf); i++) if (0x5a != buf[i]) return 0;
+  }
+  return 1;
+}
+"""
+    v = c_eval('#include "MHD_config.h"\n#include "connection.c"\n#include "mhd_str.c"\n' + probe,
+               [("close", "%d", "probe_merge (0)"), ("ka", "%d", "probe_merge (1)")],
+               extra=["-O1", "-ffunction-sections", "-fdata-sections", "-Wl,--gc-sections"])
+    flag = "true" if (v["close"], v["ka"]) == ("1", "1") else "false"
+    out = HEADER % "src/microhttpd/connection.c" + "namespace Mhd.Gen.ReplyBounds\n" \
+        + "/-- behaviour probe of `add_user_headers` (application-set `Connection: xxxxxxxx`, token `close, ` resp.\n" \
+        + "    `Keep-Alive, ` merged in, every buffer size in which only the plain line fits): the call refuses and stores\n" \
+        + "    nothing at an index >= buf_size, i.e. the check in front of the token covers the rest of the line -/\n" \
+        + "def mergeTokenRechecksLine : Bool := %s\n" % flag \
+        + "end Mhd.Gen.ReplyBounds\n"
+    return vlib.write_if_changed(os.path.join(GEN, "ReplyBounds.lean"), out)
+
+
 class Oracle:
     """Independent statement of C08 over what the real code returned:
     blocks in bounds, aligned, pairwise disjoint; contents preserved; refusal
@@ -323,6 +359,137 @@ def judge_oversize(meta, out, err):
     return None, None
 
 
+# ---------------------------------------------------------------------------------------------------------------
+# "refused rather than overflowing" for the REPLY head: build_header_response / add_user_headers / the chunked
+# footer builder write into the write buffer — the last front block of the arena, directly followed (after its
+# red zone in the pool-poisoning build) by the blocks allocated from the arena's end (the request's element list).
+# Size sweeps: one length is moved byte by byte across the boundary between "the reply head fits" and "it is
+# refused" — found by probing — so that every append of the builder is once the one that crosses the end of the
+# buffer; under the pool-poisoning build any write outside the write-buffer block aborts.
+
+PHRASE_CODES = [200, 410, 302, 423, 201, 202, 303, 204, 400, 401, 205, 406, 411, 300, 203]   # reason phrases of 2 … 29 bytes
+
+CLIENTS = {  # how the client asks: request line version + Connection header -> what MHD adds to the reply
+    "1.1-keep": (b"1.1", b""), "1.1-close": (b"1.1", b"Connection: close\r\n"),
+    "1.0": (b"1.0", b""), "1.0-keepalive": (b"1.0", b"Connection: Keep-Alive\r\n"),
+}
+
+
+def reply_case(name, mem, client, url_len, code, kind, hdrs, size=5, mode="select"):
+    """one daemon case: request `GET /<url_len x u>` from `client`, answered with response 2 = `kind`/`code`/`hdrs`
+    (list of ('h'|'f', name, value)); connection 1 is the bystander"""
+    import importlib
+    from dlog import hx
+    C01 = importlib.import_module("props.C01")
+    ver, conn = CLIENTS[client]
+    req = b"GET /" + b"u" * url_len + b" HTTP/" + ver + b"\r\nHost: h\r\n" + conn + b"\r\n"
+    r2 = "resp 2 kind=%s code=%d size=%d" % (kind, code, size) + "".join(" %s=%s:%s" % (k, hx(n), hx(v)) for k, n, v in hdrs)
+    if kind.startswith("cb"):
+        r2 += " cbmax=0 cbnr=0"
+    return C01.make_case(name, mem, 0, mode, req, [req], "l=r2", None, r2)
+
+
+def reply_families():
+    """(family, builder(L) -> (client, url_len, code, kind, hdrs)) — L is the swept length"""
+    fams = []
+    for cl in CLIENTS:
+        fams.append(("user-value/" + cl, lambda L, cl=cl: (cl, 1, 200, "copy", [("h", b"X-A", b"v" * L)])))
+        # the application's own Connection header: MHD merges "close, " / "Keep-Alive, " into it when it has to
+        fams.append(("conn-merge/" + cl, lambda L, cl=cl: (cl, 1, 200, "copy", [("h", b"Connection", b"x" * max(L, 1))])))
+        fams.append(("conn-merge+later/" + cl, lambda L, cl=cl: (cl, 1, 200, "copy", [("h", b"Connection", b"x" * max(L, 1)), ("h", b"X-B", b"bb")])))
+        fams.append(("url-early/" + cl, lambda L, cl=cl: (cl, L, 200, "copy", [])))
+    fams.append(("conn-has-close/1.1-keep", lambda L: ("1.1-keep", 1, 200, "copy", [("h", b"Connection", b"close, " + b"x" * max(L, 1))])))
+    fams.append(("user-name/1.1-keep", lambda L: ("1.1-keep", 1, 200, "copy", [("h", b"X" * max(L, 1), b"v")])))
+    fams.append(("two-hdrs/1.1-close", lambda L: ("1.1-close", 1, 200, "copy", [("h", b"X-A", b"v" * L), ("h", b"X-B", b"w" * 9)])))
+    fams.append(("chunked-te/1.1-keep", lambda L: ("1.1-keep", 1, 200, "cb-unknown", [("h", b"X-A", b"v" * L)])))
+    fams.append(("chunked-footer/1.1-keep", lambda L: ("1.1-keep", 1, 200, "cb-unknown", [("f", b"X-F", b"t" * L)])))
+    fams.append(("chunked-footer2/1.1-keep", lambda L: ("1.1-keep", 1, 200, "cb-unknown", [("f", b"X-F", b"t" * L), ("f", b"X-G", b"gg")])))
+    fams.append(("known-size/1.0", lambda L: ("1.0", 1, 200, "cb-known", [("h", b"X-A", b"v" * L)])))
+    for code in PHRASE_CODES:
+        fams.append(("phrase-%d/1.1-close" % code, lambda L, code=code: ("1.1-close", L, code, "copy", [])))
+    return fams
+
+
+def reply_outcome(out_lines):
+    """'reply' (a complete reply reached client 0), 'refused' (closed without / with an error reply), 'other'"""
+    import dlog
+    conns, _ = dlog.view(out_lines)
+    v0 = conns.get(0)
+    if v0 is None:
+        return "other"
+    try:
+        rs = dlog.parse_responses(v0.wire, at_eof=v0.eof or v0.rst)
+    except dlog.RespError:
+        return "other"
+    if rs and rs[0].get("complete") and rs[0]["status"] < 500:
+        return "reply"
+    return "refused"
+
+
+def explore_reply_head(ctx, h_plain, h_poison, failures, boost=False):
+    import importlib
+    C01 = importlib.import_module("props.C01")
+    rng = ctx.rng
+    quick = ctx.tier == "quick"
+    mems = [256, 320, 512] if quick else [192, 256, 320, 400, 512, 768, 1024]
+    fams = reply_families()
+    if quick:   # every Connection-merge and early family, a sample of the rest
+        keep = [x for x in fams if x[0].startswith(("conn-merge", "url-early/1.1-close", "chunked-footer/"))]
+        rest = [x for x in fams if x not in keep]
+        fams = keep + rng.sample(rest, 8 * (3 if boost else 1) if len(rest) > 8 * (3 if boost else 1) else len(rest))
+    stats = {"probe_cases": 0, "sweep_cases": 0, "boundaries": 0, "no_boundary": 0, "replies": 0, "refused": 0, "by_family": {}}
+    for hname, h in (("pool-poisoning build", h_poison), ("plain build", h_plain)):
+        # phase 1: probe the fit/refuse boundary on this build (coarse steps; the red zones move it)
+        probes = []
+        for mem in mems:
+            for fam, mk in fams:
+                for L in range(0, mem + 17, 12):
+                    probes.append((reply_case("rp", mem, *mk(L)), {"mem": mem, "fam": fam, "L": L}))
+        res = C01.run_cases(h, probes)
+        stats["probe_cases"] += len(probes)
+        table = {}
+        for i, (lines, meta) in enumerate(probes):
+            out, err = res.get(i, ([], "not run"))
+            if err:
+                kind, det = C01.judge(lines, meta, out, err)
+                import re as _re
+                sig = "reply-head: " + meta["fam"].split("/")[0] + ": " + _re.sub(r"0x[0-9a-f]+|\d+", "N", det or "")[:90]
+                if sum(1 for x in failures if x.signature == sig) < 2:
+                    failures.append(vlib.Failure(kind or "sanitizer", sig, "[%s] %s | %s" % (hname, det, json.dumps(meta)), lines, "conn"))
+                continue
+            table.setdefault((meta["mem"], meta["fam"]), []).append((meta["L"], reply_outcome(out)))
+        # phase 2: byte-wise sweep around every transition
+        sweeps = []
+        for (mem, fam), pts in sorted(table.items()):
+            mk = dict(fams)[fam]
+            pts.sort()
+            trans = [(a[0], b[0]) for a, b in zip(pts, pts[1:]) if a[1] != b[1]]
+            if not trans:
+                stats["no_boundary"] += 1
+                continue
+            stats["boundaries"] += len(trans)
+            for lo, hi in trans[:2]:
+                for L in range(max(lo - 16, 0), hi + 17):
+                    sweeps.append((reply_case("rs", mem, *mk(L)), {"mem": mem, "fam": fam, "L": L}))
+        stats["sweep_cases"] += len(sweeps)
+        res = C01.run_cases(h, sweeps)
+        for i, (lines, meta) in enumerate(sweeps):
+            out, err = res.get(i, ([], "not run"))
+            kind, det = C01.judge(lines, meta, out, err)
+            if kind:
+                import re as _re
+                sig = "reply-head: " + meta["fam"].split("/")[0] + ": " + _re.sub(r"0x[0-9a-f]+|\d+", "N", det)[:90]
+                if sum(1 for x in failures if x.signature == sig) < 2:
+                    failures.append(vlib.Failure(kind, sig, "[%s] %s | %s" % (hname, det, json.dumps(meta)), lines, "conn"))
+                continue
+            if h is h_poison:
+                o = reply_outcome(out)
+                stats["replies" if o == "reply" else "refused"] += 1
+                d = stats["by_family"].setdefault(meta["fam"], {"reply": 0, "refused": 0, "other": 0})
+                d[o] += 1
+    return stats
+
+
 def gen_refusal_cases(ctx, n_random):
     """composed engine (crinit/crfeed): requests that do not fit the arena, by stage and by what fills the buffer —
     request line (standard / non-standard / no method end), one huge field line (also `Host:`), many small field
@@ -398,6 +565,8 @@ def run_refusal(h_mem, driver, cases, failures):
             for j, l in enumerate(c):
                 h = kvs(hout[k + j]) if k + j < len(hout) else {}
                 m = kvs(mout[k + j]) if k + j < len(mout) else {}
+                if l.startswith("crfill"):
+                    continue
                 stats["chunks"] += 1
                 bad = None
                 if m.get("ph") in ("fault", "refused", None) or m.get("code") == "ns?":
@@ -442,16 +611,25 @@ class Spec:
                          "Mhd.C08.rz_step_wf", "Mhd.C08.rz_run_wf", "Mhd.C08.rz_wf_weak", "Mhd.C08.rz_step_no_fault",
                          "Mhd.C08.rz_block_in_bounds_disjoint", "Mhd.C08.rz_refused_unchanged", "Mhd.C08.rz_others_untouched",
                          "Mhd.C08.rz_realloc_preserves", "Mhd.C08.rz_reset_keeps", "Mhd.C08.rz_alloc_red_zone", "Mhd.C08.rz_live_red_zone",
-                         "Mhd.C08.rz_agrees_with_ordinary_model", "Mhd.C08.rz_code_variants", "Mhd.C08.rz_wrap_witness"]
+                         "Mhd.C08.rz_agrees_with_ordinary_model", "Mhd.C08.rz_code_variants", "Mhd.C08.rz_wrap_witness",
+                         "Mhd.C08.rz_extracted", "Mhd.C08.pool_step_wf", "Mhd.C08.pool_run_wf", "Mhd.C08.pool_step_no_fault",
+                         "Mhd.C08.pool_block_in_bounds_disjoint", "Mhd.C08.pool_refused_unchanged", "Mhd.C08.pool_others_untouched",
+                         "Mhd.C08.pool_realloc_preserves", "Mhd.C08.pool_reset_keeps", "Mhd.C08.pool_alloc_red_zone",
+                         "Mhd.C08.header_build_in_bounds", "Mhd.C08.header_build_refines_c04", "Mhd.C08.footer_build_in_bounds",
+                         "Mhd.C08.header_build_unchecked_merge_overflows"]
     trusted_base = ["Lean 4 kernel", "axioms: propext, Classical.choice, Quot.sound at most (audited per theorem)",
                     "hand-written model lean/Mhd/Model/Pool.lean tied to memorypool.c by this run's correspondence",
                     "hand-written model lean/Mhd/Model/PoolRz.lean (both build variants, red zone as parameter, user-poison map) tied to both "
                     "white-box builds of harness/h_pool.c (ordinary; -DMHD_ASAN_POISON_ACTIVE) by this run's correspondence",
+                    "lean/Mhd/Model/ReplyBounds.lean (checks and writes of build_header_response / add_user_headers one by one, over C04's "
+                    "Mhd.Reply model: header_build_refines_c04) tied by the regenerated behaviour probe mergeTokenRechecksLine and the daemon-level "
+                    "reply-head size sweeps under the pool-poisoning build",
                     "lean/Mhd/Model/NoSpaceConn.lean (observer over C01's Mhd.ConnRead: which refusal is decided) tied to the real parsers + "
                     "check_and_grow + transmit_error_response by the crinit/crfeed lines of harness/h_mem.c",
                     "tools/extract.py (ALIGN_SIZE, red zone, page size regenerated)", "harness/h_pool.c, gcc, ASan/UBSan"]
-    assumptions = ["pool: both build variants (red zone 0 as configured; red zone ALIGN_SIZE = MHD_ASAN_POISON_ACTIVE); the red-zone variant's "
-                   "theorems need the wrap test on the rounded size to be sound (Var.Sound; regenerated probe sizeWrapByCompare)",
+    assumptions = ["pool: both build variants (red zone 0 as configured; red zone ALIGN_SIZE = MHD_ASAN_POISON_ACTIVE), unconditional for the "
+                   "extracted variants (pool_*: Var.Extracted; soundness of the wrap test is decided from the regenerated probe sizeWrapByCompare)",
+                   "header_build_in_bounds: status code 100..999 (MHD_queue_response asserts it), Date string of at most 30 bytes",
                    "reset is asked for a block that fits the arena together with its red zone (callers: pool_size/2 or the read-ahead)",
                    "arena_hard_bound: external-polling mode of check_and_grow_read_buffer_space (as Mhd.ConnRead); the reply is taken as sent",
                    "API used as documented: realloc/dealloc/reset are given live blocks with their current size",
@@ -459,6 +637,7 @@ class Spec:
 
     def gen(self, ctx):
         gen_pool()
+        gen_replybounds()
         import importlib
         importlib.import_module("props.C01").gen_connmem()
 
@@ -641,6 +820,8 @@ class Spec:
         # parsers + check_and_grow + transmit_error_response) vs the traced composed model `Mhd.ArenaBound.runT`
         rcases = gen_refusal_cases(ctx, (40 if ctx.tier == "quick" else 500) * (3 if boost else 1))
         ref_stats = run_refusal(self.h_mem, self.driver, rcases, failures)
+        # the reply head against the end of the write buffer (size sweeps across the fit/refuse boundary, both builds)
+        rh_stats = explore_reply_head(ctx, self.h_daemon, self.h_poison, failures, boost)
         distinct = len({json.dumps(s) for s in allseqs if len(s) > 2})
         cov = {"evaluations": len(allseqs), "distinct_nontrivial": distinct,
                "rule": "op sequences on the real pool and the Lean model; distinct = different scripts with >=2 ops; "
@@ -651,8 +832,8 @@ class Spec:
                "outcomes": stats, "outcomes_redzone_build": stats_rz, "outcomes_redzone_model_at_0": stats_rz0,
                "redzone_build": {"red_zone": self.rz, "size_wrap_by_compare": self.chk}, "oversized_requests": len(ov), "oversized_outcomes": ov_stats, "buffer_layer": cov_mem,
                "poisoned_pool_daemon_cases": len(pc), "no_space_status_cases": len(ns_lines), "no_space_status_outcomes": ns_dist,
-               "refusal_cases": len(rcases), "refusal_outcomes": ref_stats, "exhaustive": False}
-        cov["evaluations"] += len(ov) + len(pc) + cov_mem.get("evaluations", 0) + len(rcases)
+               "refusal_cases": len(rcases), "refusal_outcomes": ref_stats, "reply_head_sweeps": rh_stats, "exhaustive": False}
+        cov["evaluations"] += len(ov) + len(pc) + cov_mem.get("evaluations", 0) + len(rcases) + rh_stats["probe_cases"] + rh_stats["sweep_cases"]
         return failures, cov
 
 
